@@ -238,15 +238,17 @@ func session(r *gen.R, t *gen.Trace, backend string, n int) {
 	}
 	mkTx := func(h int64, i uint32) txrec {
 		x := txrec{h: h, i: i, tx: r.Bytes(4 + r.Intn(12)), signer: pickAddr(true), recipient: pickAddr(true)}
-		switch r.Intn(12) {
-		case 0, 1:
-			x.codespace, x.code = "auth", uint32(1+r.Intn(9)) // ante-handler level failure: not indexed
-		case 2:
-			x.codespace, x.code = "auth", uint32(10+r.Intn(3)) // boundary: indexed
-		case 3:
-			x.codespace, x.code = "pos", uint32(1+r.Intn(12))
-		case 4:
-			x.codespace, x.code = "auth", 0
+		// result codes: ~45% plain success; otherwise any codespace x any code around the ante boundary.
+		// Only codespace "auth" with code < AnteHandlerMaxError is an ante-handler rejection (not indexed);
+		// the same low codes in the root codespace "sdk" or in a module codespace come from message handlers
+		// AFTER the ante handler passed (fee paid) and must be indexed.
+		if !r.Chance(9, 20) {
+			spaces := []string{"", "auth", "auth", "sdk", "sdk", "pos", "application", "pocketcore", "gov", "AUTH", "authx", "sd"}
+			if r.Chance(1, 10) {
+				spaces = []string{fmt.Sprintf("m%x", r.Intn(4096))}
+			}
+			codes := []uint32{0, 1, 2, 3, 4, 5, 6, 7, 8, 9, 10, 11, 12, 13, 100, 105, 4294967295}
+			x.codespace, x.code = spaces[r.Intn(len(spaces))], codes[r.Intn(len(codes))]
 		}
 		// rare: the same tx bytes again (duplicate hash) — compared with the model only
 		if len(e.all) > 0 && r.Chance(1, 40) {
